@@ -65,9 +65,10 @@ namespace occa {
   }
 
   memory& memory::swap(memory &m) {
-    modeMemory_t *modeMemory_ = modeMemory;
-    modeMemory   = m.modeMemory;
-    m.modeMemory = modeMemory_;
+    // Go through the reference rings, the handles are registered in them
+    memory tmp(*this);
+    *this = m;
+    m = tmp;
     return *this;
   }
 
